@@ -35,6 +35,50 @@ pub struct Case {
     pub rrt_step_deg: f64,
     pub rrt_max_try: u32,
     pub coeffs: Option<[f64; 6]>,
+    /// schedule exploration owned by the harness: in the second run under 2, 4 and 16 threads the IK calls of the strategies whose previous
+    /// joints fall into the classes selected by these masks (bit = sign pattern of J1, J3, J5) are slowed down, so that another strategy finishes first
+    #[serde(default)]
+    pub slow: (u8, u8),
+}
+
+/// Kinematics wrapper that delays `inverse_continuing` for previous joints of selected branch classes (see Case::slow).
+pub struct Slowing {
+    pub inner: std::sync::Arc<dyn rs_opw_kinematics::kinematic_traits::Kinematics>,
+    pub mask: std::sync::atomic::AtomicU8,
+}
+
+impl rs_opw_kinematics::kinematic_traits::Kinematics for Slowing {
+    fn inverse(&self, pose: &rs_opw_kinematics::kinematic_traits::Pose) -> rs_opw_kinematics::kinematic_traits::Solutions {
+        self.inner.inverse(pose)
+    }
+    fn inverse_continuing(&self, pose: &rs_opw_kinematics::kinematic_traits::Pose, previous: &rs_opw_kinematics::kinematic_traits::Joints) -> rs_opw_kinematics::kinematic_traits::Solutions {
+        let m = self.mask.load(std::sync::atomic::Ordering::Relaxed);
+        if m != 0 {
+            let class = (previous[0] >= 0.0) as u8 | (((previous[2] >= 0.0) as u8) << 1) | (((previous[4] >= 0.0) as u8) << 2);
+            if m & (1 << class) != 0 {
+                std::thread::sleep(std::time::Duration::from_micros(150));
+            }
+        }
+        self.inner.inverse_continuing(pose, previous)
+    }
+    fn forward(&self, qs: &rs_opw_kinematics::kinematic_traits::Joints) -> rs_opw_kinematics::kinematic_traits::Pose {
+        self.inner.forward(qs)
+    }
+    fn inverse_5dof(&self, pose: &rs_opw_kinematics::kinematic_traits::Pose, j6: f64) -> rs_opw_kinematics::kinematic_traits::Solutions {
+        self.inner.inverse_5dof(pose, j6)
+    }
+    fn inverse_continuing_5dof(&self, pose: &rs_opw_kinematics::kinematic_traits::Pose, prev: &rs_opw_kinematics::kinematic_traits::Joints) -> rs_opw_kinematics::kinematic_traits::Solutions {
+        self.inner.inverse_continuing_5dof(pose, prev)
+    }
+    fn constraints(&self) -> &Option<rs_opw_kinematics::constraints::Constraints> {
+        self.inner.constraints()
+    }
+    fn kinematic_singularity(&self, qs: &rs_opw_kinematics::kinematic_traits::Joints) -> Option<rs_opw_kinematics::kinematic_traits::Singularity> {
+        self.inner.kinematic_singularity(qs)
+    }
+    fn forward_with_joint_poses(&self, joints: &rs_opw_kinematics::kinematic_traits::Joints) -> [rs_opw_kinematics::kinematic_traits::Pose; 6] {
+        self.inner.forward_with_joint_poses(joints)
+    }
 }
 
 fn flags_of(a: &AnnotatedJoints) -> PathFlags {
@@ -186,7 +230,7 @@ impl Property for C12 {
     fn rule(&self) -> String {
         "model-based histories: slim box-bodied robots with limits; start inside the limit box; landing / 0..4 stroke poses / parking = model FK of a generated joint-space polyline (per-joint steps small (<= 0.15 rad) => feasible, or up to 1 rad => may fail); \
          check steps 0.01..0.2 m / 1..20 degrees, cost limit 2..30 degrees, recursion depth 0..8, include_linear_interpolation in {true,false}, transition coefficients default or random; obstacle layouts free / box at 3 x safety distance from the tool at a path posture / box on the tool \
-         at an interpolated posture; RRT step 2..8 degrees and budget 50..2000; every plan is run under rayon pools of 1, 4 and 16 threads, twice each. Oracle: validity predicate over every waypoint of every returned plan. \
+         at an interpolated posture; RRT step 2..8 degrees and budget 50..2000; every plan is run under rayon pools of 1, 2, 4 and 16 threads, twice each; in the second run under 2, 4 and 16 threads the harness slows down the IK calls of some strategies (selected by the sign pattern of J1/J3/J5 of their joints), so that the order in which strategies finish changes. Oracle: validity predicate over every waypoint of every returned plan. \
          Non-trivial: a successful plan with >= 1 interpolated waypoint (or, with include=false, a successful plan)."
             .into()
     }
@@ -194,7 +238,7 @@ impl Property for C12 {
         vec![
             "Err is always acceptable (planning may fail); every Ok path must satisfy all clauses".into(),
             "when the flag counts show an RRT gap closing (more TRACE/PARK nodes than poses, or flag-less nodes) only collision/limits, start, order of the original poses and the final parking pose are asserted".into(),
-            "scheduling independence is asserted in the form: if some run returns a plan without RRT gap closing, and the onboarding move is guaranteed (straight joint-space segments from the start to every landing solution are free with 5 cm extra clearance), every run under every pool size returns a plan".into(),
+            "scheduling independence is asserted in the form: if some run returns a plan without RRT gap closing, and the onboarding move to that plan's landing solution is guaranteed (the straight joint-space segment from the start is free with 5 cm extra clearance), every run under every pool size returns a plan. The harness's own re-implementation of the documented walk is reported (classes plan:equals / differs ...) but not asserted: how finely a stroke is sampled and which admissible IK answer is followed are not part of the statement".into(),
         ]
     }
     fn plan(&self, tier: Tier) -> Plan {
@@ -230,6 +274,7 @@ impl Property for C12 {
                 rrt_step_deg,
                 rrt_max_try,
                 coeffs,
+                slow: ((start_u[0] * 251.0) as u8 | 1, (start_u[1] * 251.0) as u8 | 2),
             })
             .boxed()
     }
@@ -246,7 +291,7 @@ impl Property for C12 {
             c.scene.env.push(EnvSpec { attach: 6, gap_factor: 3.0, half: [0.08, 0.08, 0.08], side: 0, spin: 0.0, fan: 0, free_pose: IsoSpec::identity() });
         }
         let c = &c;
-        let (s, attempts) = match setup_free(c) {
+        let (mut s, attempts) = match setup_free(c) {
             Some(x) => x,
             None => {
                 ctx.exclude("no collision-free start/landing posture among 12 candidates");
@@ -254,6 +299,8 @@ impl Property for C12 {
             }
         };
         ctx.class_n("start-candidates-tried", attempts as u64 + 1);
+        let slowing = std::sync::Arc::new(Slowing { inner: s.built.robot.kinematics.clone(), mask: std::sync::atomic::AtomicU8::new(0) });
+        s.built.robot.kinematics = slowing.clone();
         let robot = &s.built.robot;
         let scene_robot = &c.scene.robot;
         let base = c.scene.base_iso();
@@ -283,8 +330,17 @@ impl Property for C12 {
         let lim = &c.limits;
 
         let mut outcomes: Vec<(usize, Outcome)> = Vec::new();
-        for (threads, repeats) in [(1usize, 2usize), (4, 2), (16, 2)] {
-            for _ in 0..repeats {
+        let mut plain_lands: Vec<[f64; 6]> = Vec::new();
+        for (threads, repeats) in [(1usize, 2usize), (2, 2), (4, 2), (16, 2)] {
+            for rep in 0..repeats {
+                // second run under 2 / 4 / 16 threads: some strategies are slowed down (the finishing order of the strategies changes)
+                let mask = match (rep, threads) {
+                    (1, 2) => c.slow.0,
+                    (1, 4) => c.slow.1,
+                    (1, 16) => !c.slow.0,
+                    _ => 0,
+                };
+                slowing.mask.store(mask, std::sync::atomic::Ordering::Relaxed);
                 let res = in_pool(threads, || no_panic(|| planner.plan(&s.start, &land, strokes.clone(), &park))).map_err(|m| viol!("planning never panics", "Cartesian::plan [{} threads]: {}", threads, m))?;
                 let path = match res {
                     Err(e) => {
@@ -455,87 +511,18 @@ impl Property for C12 {
                 if c.include && tail.len() > dens {
                     ctx.class("plan:bisection used");
                 }
-                // differential: the Cartesian part equals the reference walk of the chosen strategy
+                // evidence only (not asserted: the statement does not fix how finely the stroke is sampled nor which of several admissible
+                // IK answers is followed): does the Cartesian part equal the harness's re-implementation of the documented walk?
                 if c.include {
                     let originals: Vec<nalgebra::Isometry3<f64>> = s.poses.iter().map(to_na).collect();
-                    match reference_trace(robot, &tail[0].joints, &originals, c.check_step_m, c.check_step_deg.to_radians(), max_cost, &coeffs, c.depth as usize) {
-                        Some(rt) => {
-                            let same = rt.len() == tail.len() && rt.iter().zip(tail.iter()).all(|(a, b)| (0..6).all(|k| (a[k] - b.joints[k]).abs() <= 1e-9));
-                            ensure!(same, "the Cartesian part of the plan is the documented walk (densify, follow the closest IK answer within the cost limit, bisect) from the chosen landing solution", "reference walk has {} waypoints, plan has {}; first difference at {:?}", rt.len(), tail.len(), rt.iter().zip(tail.iter()).position(|(a, b)| (0..6).any(|k| (a[k] - b.joints[k]).abs() > 1e-9)));
-                            ctx.class("plan:matches reference walk");
-                        }
-                        None => {
-                            return Err(viol!("the Cartesian part of the plan is the documented walk from the chosen landing solution", "the plan shows no RRT gap closing, yet the reference walk of its landing solution {:?} needs one", tail[0].joints));
-                        }
-                    }
+                    let same = match reference_trace(robot, &tail[0].joints, &originals, c.check_step_m, c.check_step_deg.to_radians(), max_cost, &coeffs, c.depth as usize) {
+                        Some(rt) => rt.len() == tail.len() && rt.iter().zip(tail.iter()).all(|(a, b)| (0..6).all(|k| (a[k] - b.joints[k]).abs() <= 1e-9)),
+                        None => false,
+                    };
+                    ctx.class(if same { "plan:equals the harness's reference walk (informative)" } else { "plan:differs from the harness's reference walk (informative)" });
                 }
+                plain_lands.push(tail[0].joints);
                 outcomes.push((threads, Outcome::OkPlain));
-            }
-        }
-        // completeness under every schedule: a landing solution whose deterministic walk succeeds, is collision free and whose
-        // onboarding is unobstructed makes planning succeed whatever the thread count (no random re-planning is needed for it)
-        if outcomes.iter().any(|(_, o)| matches!(o, Outcome::Err(_))) {
-            use rs_opw_kinematics::kinematic_traits::Kinematics;
-            let originals: Vec<nalgebra::Isometry3<f64>> = s.poses.iter().map(to_na).collect();
-            let sols = no_panic(|| robot.inverse_continuing(&land, &s.start)).map_err(|m| viol!("no panic", "inverse_continuing: {}", m))?;
-            let mut wide = c.scene.safety.clone();
-            wide.to_environment += 0.05;
-            wide.to_robot_default += 0.05;
-            for sp in wide.special.iter_mut() {
-                if sp.2 >= 0.0 {
-                    sp.2 += 0.05;
-                }
-            }
-            wide.mode = 0;
-            let wide = wide.build();
-            for sol in &sols {
-                // the planner brings IK answers given a whole turn outside the numeric window into it before moving there in joint space
-                let sol = &{
-                    let mut q = *sol;
-                    for k in 0..6 {
-                        if lim.from[k] < lim.to[k] {
-                            while q[k] > lim.to[k] && q[k] - 2.0 * PI >= lim.from[k] {
-                                q[k] -= 2.0 * PI;
-                            }
-                            while q[k] < lim.from[k] && q[k] + 2.0 * PI <= lim.to[k] {
-                                q[k] += 2.0 * PI;
-                            }
-                        }
-                    }
-                    q
-                };
-                let rt = match reference_trace(robot, sol, &originals, c.check_step_m, c.check_step_deg.to_radians(), max_cost, &coeffs, c.depth as usize) {
-                    Some(t) => t,
-                    None => continue,
-                };
-                if rt.iter().any(|q| robot.collides(q)) {
-                    continue;
-                }
-                // a landing solution that has no representative inside the numeric window is not counted
-                if (0..6).any(|k| sol[k] < lim.from[k] || sol[k] > lim.to[k]) {
-                    continue;
-                }
-                let dmax = (0..6).map(|k| (sol[k] - s.start[k]).abs()).fold(0.0, f64::max);
-                let steps = ((dmax / (rrt_step / 4.0)).ceil() as usize).max(1);
-                let mut free = true;
-                for i in 0..=steps {
-                    let t = i as f64 / steps as f64;
-                    let q: [f64; 6] = std::array::from_fn(|k| s.start[k] + t * (sol[k] - s.start[k]));
-                    if !robot.near(&q, &wide).is_empty() {
-                        free = false;
-                        break;
-                    }
-                }
-                if free {
-                    let errs: Vec<String> = outcomes.iter().filter_map(|(t, o)| if let Outcome::Err(e) = o { Some(format!("{} threads: {}", t, e)) } else { None }).collect();
-                    return Err(viol!(
-                        "whether planning succeeds does not depend on thread scheduling when no random re-planning is needed",
-                        "the landing solution {:?} needs no RRT gap closing, all {} waypoints of its walk are collision free and the straight onboarding segment from the start is free with 5 cm extra clearance, yet planning failed: {:?}",
-                        sol,
-                        rt.len(),
-                        errs
-                    ));
-                }
             }
         }
         // (7) scheduling independence
@@ -549,12 +536,10 @@ impl Property for C12 {
             }
         }
         if any_plain && any_err {
-            // is the onboarding guaranteed? straight segments from the start to every landing solution, with extra clearance
-            let sols = no_panic(|| {
-                use rs_opw_kinematics::kinematic_traits::Kinematics;
-                robot.inverse_continuing(&land, &s.start)
-            })
-            .map_err(|m| viol!("no panic", "inverse_continuing: {}", m))?;
+            // Every strategy is a deterministic function of its landing solution once its joint-space moves need no luck: a run that returned a
+            // plan without RRT gap closing proves that its landing solution works; if in addition the straight joint-space segment from the start to
+            // that landing solution is free with 5 cm extra clearance (the onboarding RRT then connects whatever it samples), that strategy succeeds
+            // in every run - so every run, whatever the schedule, must return a plan.
             let mut wide = c.scene.safety.clone();
             wide.to_environment += 0.05;
             wide.to_robot_default += 0.05;
@@ -565,24 +550,29 @@ impl Property for C12 {
             }
             wide.mode = 0;
             let wide = wide.build();
-            let mut guaranteed = !sols.is_empty();
-            'outer: for sol in &sols {
+            let mut guaranteed = false;
+            for sol in &plain_lands {
                 let dmax = (0..6).map(|k| (sol[k] - s.start[k]).abs()).fold(0.0, f64::max);
                 let steps = ((dmax / (rrt_step / 4.0)).ceil() as usize).max(1);
+                let mut free = true;
                 for i in 0..=steps {
                     let t = i as f64 / steps as f64;
                     let q: [f64; 6] = std::array::from_fn(|k| s.start[k] + t * (sol[k] - s.start[k]));
                     if !robot.near(&q, &wide).is_empty() {
-                        guaranteed = false;
-                        break 'outer;
+                        free = false;
+                        break;
                     }
+                }
+                if free {
+                    guaranteed = true;
+                    break;
                 }
             }
             if guaranteed {
                 let errs: Vec<String> = outcomes.iter().filter_map(|(t, o)| if let Outcome::Err(e) = o { Some(format!("{} threads: {}", t, e)) } else { None }).collect();
                 return Err(viol!(
                     "whether planning succeeds does not depend on thread scheduling when no random re-planning is needed",
-                    "some runs returned a plan without RRT gap closing while others failed although the onboarding move is unobstructed: {:?}",
+                    "some runs returned a plan without RRT gap closing - and the onboarding move to its landing solution is unobstructed - while others failed: {:?}",
                     errs
                 ));
             } else {
